@@ -94,7 +94,8 @@ func checkC17(c *Ctx) {
 					}
 					for _, rec := range ar.Log {
 						if cl, _ := classOf(rec.Argv); strings.HasPrefix(cl, "other:") {
-							why = append(why, "git_command_not_in_the_specification:"+strings.Join(rec.Argv, " "))
+							// a command CliRun does not list is a change of shape; whether it writes is decided by the digest
+							c.Drift("git command not in the specification: " + strings.Join(rec.Argv, " "))
 						}
 					}
 					if len(why) > 0 {
